@@ -378,7 +378,7 @@ for _L, _A, _tier, _to in ((3, 3, "quick", 900), (3, 4, "quick", 1200), (3, 5, "
               % (_L + 2, (2 << _L) + 2, _A + 1, _L + 2, _L + 2, _L + 2)],
         backend="kissat", timeout=_to, mem_gb=10, extra_src=["crctab.c"],
         functions=["src/encode.c:assign_codes", "src/encode.c:package_merge", "src/encode.c:sort_alphabet"],
-        witnesses=["competitor_considered"] + (["shorter_competitor_considered", "length_limit_reached"] if _A > _L else []),
+        witnesses=["competitor_considered"] + (["length_limit_reached"] if _A > _L else []) + (["shorter_competitor_considered"] if _L < _A <= (1 << (_L - 1)) else []),   # a complete code shorter than L exists only for <= 2^(L-1) symbols
         bounds="SCALED build: MAX_CODE_LENGTH=%d (production 20); alphabet of %d symbols with symbolic frequencies 0..15; the competitor code is a second symbolic length vector (all complete prefix codes "
                "with the same length limit are covered by the one query)" % (_L, _A),
         assumptions=["scaled code-length limit through the guarded hook; the algorithm text is the production text",
